@@ -6041,6 +6041,7 @@ class LazyStruct(Construct):
                 offset += sc._actualsize(stream, context, path)
                 stream_seek(stream, offset, 0, path)
             except SizeofError:
+                stream_seek(stream, offset, 0, path)
                 parseret = sc._parsereport(stream, context, path)
                 values[i] = parseret
                 if sc.name:
@@ -6166,6 +6167,7 @@ class LazyArray(Subconstruct):
                 offset += sc._actualsize(stream, context, path)
                 stream_seek(stream, offset, 0, path)
             except SizeofError:
+                stream_seek(stream, offset, 0, path)
                 parseret = sc._parsereport(stream, context, path)
                 values[i] = parseret
                 offset = stream_tell(stream, path)
